@@ -735,10 +735,13 @@ Definition read_field (k : fkind) (ts : list tok) : outcome (fval * list tok) :=
           | FRtype => do n <- read_rtype t; Ok (VRtype n, r)
           | FTimestamp => do n <- read_timestamp t; Ok (VUint n, r)
           | FSalt => do w <- word_text (t_syms t);
+                     (* at most Nsec3Salt::MAX_LEN octets, i.e. twice as many hex digits *)
+                     if 2 * nsec3_salt_max <? len w then Err E_charstr else
                      Ok (VSalt (match w with [45] => [] | _ => w end), r)
           | FQuoted => do b <- read_octets t; Ok (VQuoted b, r)
           | FB32 => do w <- word_text (t_syms t);
-                    do b <- DV.C18.Model.b32_convert [w]; Ok (VB32 b, r)
+                    do b <- DV.C18.Model.b32_convert [w];
+                    if nsec3_hash_max <? len b then Err E_charstr else Ok (VB32 b, r)
           | FDot => do w <- read_ascii t;
                     match w with [46] => Ok (VDot, r) | _ => Err E_symbol end
           | FIp4 => do b <- read_octets t;
@@ -1050,6 +1053,21 @@ Definition c06_uint (which : N) (tok : text) : outcome N :=
   | Some t5, Some t => if is_marker t5 then Err E_generic else read_uint max t
   | _, _ => Err E_tokens
   end.
+
+(* ". 0 IN NSEC3PARAM 1 0 0 <salt>\n" (which = 0) and ". 0 IN NSEC3 1 0 0 - <hash>\n" (which = 1): the
+   length of the salt text / of the decoded hash, with the 255 octet limits *)
+Definition c06_n3len (which : N) (tok : text) : outcome N :=
+  let line := if which =? 0 then [46; 32; 48; 32; 73; 78; 32; 78; 83; 69; 67; 51; 80; 65; 82; 65; 77; 32; 49; 32; 48; 32; 48; 32] ++ tok ++ [ch_lf]
+              else [46; 32; 48; 32; 73; 78; 32; 78; 83; 69; 67; 51; 32; 49; 32; 48; 32; 48; 32; 45; 32] ++ tok ++ [ch_lf] in
+  do ts <- tokenize line;
+  if which =? 0 then
+    match ts with
+    | [_; _; _; _; _; _; _; t] => do x <- read_field FSalt [t]; match fst x with VSalt w => Ok (len w / 2) | _ => Err E_tokens end
+    | _ => Err E_tokens end
+  else
+    match ts with
+    | [_; _; _; _; _; _; _; _; t] => do x <- read_field FB32 [t]; match fst x with VB32 b => Ok (len b) | _ => Err E_tokens end
+    | _ => Err E_tokens end.
 
 (* ". 0 IN RRSIG A 8 0 0 <tok> 0 0 . AA==\n": the expiration time *)
 Definition c06_ts (tok : text) : outcome N :=
